@@ -359,6 +359,7 @@ fn _codegen_callable_closure_body(
                 assert_eq!(current_index, dfs.start);
                 let mut ok_arm = None;
                 let mut ok_binding_variable = None;
+                let mut ok_is_borrowed_mutably = false;
                 let mut err_arm = None;
                 for variant_index in variants {
                     let mut at_most_once_constructor_blocks = IndexMap::new();
@@ -414,6 +415,11 @@ fn _codegen_callable_closure_body(
                     };
                     match variant_type {
                         MatchResultVariant::Ok => {
+                            // The `Ok` value must be bound mutably if someone downstream
+                            // wants a `&mut` reference to it.
+                            ok_is_borrowed_mutably = call_graph
+                                .edges_directed(variant_index, Direction::Outgoing)
+                                .any(|e| e.weight() == &CallGraphEdgeMetadata::ExclusiveBorrow);
                             ok_binding_variable = Some(match_binding_parameter_name.clone());
                             ok_arm = Some(match_arm_body);
                         }
@@ -430,6 +436,7 @@ fn _codegen_callable_closure_body(
                 // generated code.
                 let ok_arm = ok_arm.unwrap();
                 let ok_binding_variable = ok_binding_variable.unwrap();
+                let maybe_mut = ok_is_borrowed_mutably.then(|| quote! {mut});
                 let err_arm = err_arm.unwrap();
                 let result_node_index = call_graph
                     .neighbors_directed(current_index, Direction::Incoming)
@@ -438,7 +445,7 @@ fn _codegen_callable_closure_body(
                 let result_binding = &blocks[&result_node_index];
                 let block = quote! {
                     {
-                        let #ok_binding_variable = match #result_binding {
+                        let #maybe_mut #ok_binding_variable = match #result_binding {
                             Ok(ok) => ok,
                             #err_arm
                         };
